@@ -119,6 +119,7 @@ func main() {
 	utils.SetGlobalLoggingLevel("fatal")
 	out := hx.NewOut(os.Args[2])
 	retries := lavaprotocol.NewRelayRetriesManager()
+	consistency := relaycore.NewConsistency("LAV1", 0) // one cache for all cases (creating it is expensive)
 	for ci, c := range cases {
 		reps := c.Reps
 		if reps < 1 {
@@ -146,7 +147,7 @@ func main() {
 			if sm.GetSelection() != relaycore.CrossValidation {
 				hx.Die("selection is not cross-validation")
 			}
-			rp := relaycore.NewRelayProcessor(ctx, sm.GetCrossValidationParams(), relaycore.NewConsistency("LAV1", 0), metricsMock{}, metricsMock{}, retries, sm)
+			rp := relaycore.NewRelayProcessor(ctx, sm.GetCrossValidationParams(), consistency, metricsMock{}, metricsMock{}, retries, sm)
 			sessions := lavasession.ConsumerSessionsMap{}
 			for i := 0; i < n; i++ {
 				sessions[fmt.Sprintf("lava@p%d", i)] = &lavasession.SessionInfo{}
